@@ -788,6 +788,80 @@ pub struct Built<C: Cfg> {
     pub pow_pos: Vec<(usize, usize, u64)>,
 }
 
+/// Applies one history operation to one challenger instance (shared by the single-challenger and
+/// the interleaved builders).
+fn apply_op<C: Cfg>(
+    b: &mut CircuitBuilder<EOf<C>>,
+    ch: &mut dyn RecursiveChallenger<BOf<C>, EOf<C>>,
+    publics: &mut Vec<EOf<C>>,
+    probes: &mut Vec<(usize, Probe)>,
+    pow_pos: &mut Vec<(usize, usize, u64)>,
+    i: usize,
+    op: &HOp,
+    consume: bool,
+    seven: ExprId,
+) -> Result<(), String> {
+    let target = |b: &mut CircuitBuilder<EOf<C>>, publics: &mut Vec<EOf<C>>, val: EOf<C>, k: bool| -> ExprId {
+        if k {
+            b.define_const(val)
+        } else {
+            publics.push(val);
+            b.public_input()
+        }
+    };
+    match op {
+        HOp::Obs { v, k } => {
+            let t = target(b, publics, eel::<C>(&[*v]), *k);
+            ch.observe(b, t);
+        }
+        HOp::ObsExt { v, k } => {
+            let t = target(b, publics, eel::<C>(v), *k);
+            ch.observe_ext(b, t);
+        }
+        HOp::ObsSlice { vs, k } => {
+            let ts: Vec<ExprId> = vs.iter().map(|v| target(b, publics, eel::<C>(&[*v]), *k)).collect();
+            ch.observe_slice(b, &ts);
+        }
+        HOp::ObsExtSlice { vs, k } => {
+            let ts: Vec<ExprId> = vs.iter().map(|v| target(b, publics, eel::<C>(v), *k)).collect();
+            ch.observe_ext_slice(b, &ts);
+        }
+        HOp::Sample => {
+            let t = ch.sample(b);
+            if consume {
+                b.mul(t, seven);
+            }
+            probes.push((i, Probe::One(t)));
+        }
+        HOp::SampleExt => {
+            let t = ch.sample_ext(b);
+            if consume {
+                b.mul(t, seven);
+            }
+            probes.push((i, Probe::One(t)));
+        }
+        HOp::SampleExtVec { n } => {
+            for t in ch.sample_ext_vec(b, *n) {
+                if consume {
+                    b.mul(t, seven);
+                }
+                probes.push((i, Probe::One(t)));
+            }
+        }
+        HOp::SampleBits { n } => {
+            let bits = ch.sample_bits(b, *n).map_err(|e| format!("sample_bits({n}): {e:?}"))?;
+            probes.push((i, Probe::Bits(bits)));
+        }
+        HOp::Pow { bits, w, bad } => {
+            pow_pos.push((i, publics.len(), *bad));
+            let t = target(b, publics, eel::<C>(&[*w]), false);
+            ch.check_pow_witness(b, *bits, t).map_err(|e| format!("check_pow_witness({bits}): {e:?}"))?;
+        }
+        HOp::Clear => ch.clear(b),
+    }
+    Ok(())
+}
+
 /// `consume`: every sampled base / extension target is read by an ALU operation, as any real
 /// verifier circuit does with its challenges (a target nobody reads has no reader on the witness
 /// bus, so its creator's value is not checked — and nothing depends on it).
@@ -805,68 +879,33 @@ pub fn build_history<C: Cfg>(
     let mut probes = vec![];
     let mut publics: Vec<EOf<C>> = vec![];
     let mut pow_pos = vec![];
-    let target = |b: &mut CircuitBuilder<EOf<C>>, publics: &mut Vec<EOf<C>>, val: EOf<C>, k: bool| -> ExprId {
-        if k {
-            b.define_const(val)
-        } else {
-            publics.push(val);
-            b.public_input()
-        }
-    };
     for (i, op) in h.iter().enumerate() {
-        match op {
-            HOp::Obs { v, k } => {
-                let t = target(&mut b, &mut publics, eel::<C>(&[*v]), *k);
-                ch.observe(&mut b, t);
-            }
-            HOp::ObsExt { v, k } => {
-                let t = target(&mut b, &mut publics, eel::<C>(v), *k);
-                ch.observe_ext(&mut b, t);
-            }
-            HOp::ObsSlice { vs, k } => {
-                let ts: Vec<ExprId> = vs.iter().map(|v| target(&mut b, &mut publics, eel::<C>(&[*v]), *k)).collect();
-                ch.observe_slice(&mut b, &ts);
-            }
-            HOp::ObsExtSlice { vs, k } => {
-                let ts: Vec<ExprId> = vs.iter().map(|v| target(&mut b, &mut publics, eel::<C>(v), *k)).collect();
-                ch.observe_ext_slice(&mut b, &ts);
-            }
-            HOp::Sample => {
-                let t = ch.sample(&mut b);
-                if consume {
-                    b.mul(t, seven);
-                }
-                probes.push((i, Probe::One(t)));
-            }
-            HOp::SampleExt => {
-                let t = ch.sample_ext(&mut b);
-                if consume {
-                    b.mul(t, seven);
-                }
-                probes.push((i, Probe::One(t)));
-            }
-            HOp::SampleExtVec { n } => {
-                for t in ch.sample_ext_vec(&mut b, *n) {
-                    if consume {
-                        b.mul(t, seven);
-                    }
-                    probes.push((i, Probe::One(t)));
-                }
-            }
-            HOp::SampleBits { n } => {
-                let bits = ch.sample_bits(&mut b, *n).map_err(|e| format!("sample_bits({n}): {e:?}"))?;
-                probes.push((i, Probe::Bits(bits)));
-            }
-            HOp::Pow { bits, w, bad } => {
-                pow_pos.push((i, publics.len(), *bad));
-                let t = target(&mut b, &mut publics, eel::<C>(&[*w]), false);
-                ch.check_pow_witness(&mut b, *bits, t).map_err(|e| format!("check_pow_witness({bits}): {e:?}"))?;
-            }
-            HOp::Clear => ch.clear(&mut b),
-        }
+        apply_op::<C>(&mut b, ch.as_mut(), &mut publics, &mut probes, &mut pow_pos, i, op, consume, seven)?;
     }
     let circuit = b.build().map_err(|e| format!("build: {e:?}"))?;
     Ok(Built { circuit, probes, publics, pow_pos })
+}
+
+/// Several independent challengers in ONE circuit, their operations interleaved: `order[k]` names
+/// the challenger that executes its next operation at step k. Returns the circuit, the public
+/// values and, per challenger, its probes (aligned with `native_eval(hs[c]).expects`).
+pub fn build_interleaved<C: Cfg>(hs: &[Vec<HOp>], order: &[usize], recompose: bool) -> Result<(Built<C>, Vec<Vec<(usize, Probe)>>), String> {
+    let mut b = CircuitBuilder::<EOf<C>>::new();
+    C::enable(&mut b, recompose, None, None);
+    let mut chs: Vec<Box<dyn RecursiveChallenger<BOf<C>, EOf<C>>>> = hs.iter().map(|_| C::circuit_challenger()).collect();
+    let seven = b.define_const(eel::<C>(&[7]));
+    let mut probes: Vec<Vec<(usize, Probe)>> = vec![vec![]; hs.len()];
+    let mut publics: Vec<EOf<C>> = vec![];
+    let mut pow_pos = vec![];
+    let mut next = vec![0usize; hs.len()];
+    for &c in order {
+        let i = next[c];
+        let Some(op) = hs[c].get(i) else { continue };
+        next[c] += 1;
+        apply_op::<C>(&mut b, chs[c].as_mut(), &mut publics, &mut probes[c], &mut pow_pos, i, op, true, seven)?;
+    }
+    let circuit = b.build().map_err(|e| format!("build: {e:?}"))?;
+    Ok((Built { circuit, probes: vec![], publics, pow_pos }, probes))
 }
 
 pub fn run_built<C: Cfg>(built: &Built<C>, publics: &[EOf<C>]) -> Result<Traces<EOf<C>>, CircuitError> {
@@ -1137,7 +1176,105 @@ fn case<C: Cfg>(seed: u64, idx: usize, tier: Tier) -> Vec<CaseResult> {
     check_history::<C>(&h, recompose, bad_op, idx)
 }
 
+/// Two or three independent challengers in one circuit with interleaved operations: each must
+/// reproduce its own native transcript (the challengers share the Poseidon table and its executor
+/// state; nothing in the property ties a transcript to being alone in its circuit).
+fn check_interleaved<C: Cfg>(hs: &[Vec<HOp>], order: &[usize], recompose: bool, sample: bool) -> Vec<CaseResult> {
+    let nats: Vec<NativeRun> = hs.iter().map(|h| native_eval::<C>(h, None)).collect();
+    let key = format!("{}:interleaved:{}:{}", C::NAME, fnv(&format!("{hs:?}{order:?}")), if recompose { "npo" } else { "alu" });
+    if nats.iter().any(|n| n.pow.iter().any(|(_, ok)| !ok)) {
+        return vec![CaseResult::inconclusive(key, "generator: ground PoW witness does not pass natively")];
+    }
+    let det = |extra: Value| json!({"config": C::NAME, "recompose_npo": recompose, "interleaved": {"histories": hs, "order": order}, "extra": extra});
+    let (built, probes) = match guarded(|| build_interleaved::<C>(hs, order, recompose)) {
+        Ok(Ok(x)) => x,
+        Ok(Err(e)) => return vec![CaseResult::violated(key, format!("builder-error/{}/interleaved", C::NAME), det(json!({"error": e})))],
+        Err(p) => return vec![CaseResult::violated(key, format!("builder-panic/{}/{}", C::NAME, panic_site(&p)), det(json!({"panic": p})))],
+    };
+    // switches = how often consecutive permuting steps belong to different challengers
+    let switches = order.windows(2).filter(|w| w[0] != w[1]).count();
+    let perms: usize = nats.iter().map(|n| n.perms).sum();
+    let n_cmp: usize = nats.iter().map(|n| n.expects.len()).sum();
+    let nontrivial = n_cmp > 0 && nats.iter().filter(|n| n.perms >= 1).count() >= 2 && switches >= 1;
+    let verdict = match guarded(|| run_built::<C>(&built, &built.publics)) {
+        Err(p) => Some((format!("runner-panic/{}/{}", C::NAME, panic_site(&p)), json!({"panic": p}))),
+        Ok(Err(e)) => Some((format!("interleaved-run-failed/{}/{}", C::NAME, err_variant(&e)), json!({"error": format!("{e:?}")}))),
+        Ok(Ok(traces)) => {
+            let mut bad = None;
+            'outer: for (c, (nat, ps)) in nats.iter().zip(&probes).enumerate() {
+                for (j, (exp, (op_idx, p))) in nat.expects.iter().zip(ps).enumerate() {
+                    let got = match p {
+                        Probe::One(e) => read_expr::<C>(&built, &traces, *e).map(|c| vec![c]),
+                        Probe::Bits(es) => es.iter().map(|e| read_expr::<C>(&built, &traces, *e)).collect(),
+                    };
+                    if !probe_matches::<C>(exp, &got) {
+                        bad = Some((
+                            format!("interleaved-transcript-mismatch/{}", C::NAME),
+                            json!({"challenger": c, "probe": j, "op_index": op_idx, "op": hs[c][*op_idx].kind(), "expected": format!("{exp:?}"), "got": got}),
+                        ));
+                        break 'outer;
+                    }
+                }
+            }
+            bad
+        }
+    };
+    let mut r = match verdict {
+        Some((sig, extra)) => CaseResult::violated(key, sig, det(extra)),
+        None => CaseResult::held(key, nontrivial),
+    };
+    r = r
+        .count(format!("interleaved/config/{}", C::NAME), 1)
+        .count(format!("interleaved/challengers/{}", hs.len()), 1)
+        .count("interleaved/switches", switches as u64)
+        .count("interleaved/permutations", perms as u64)
+        .count("interleaved/sampled-values-compared", n_cmp as u64);
+    if sample {
+        r = r.with_sample(json!({"config": C::NAME, "stream": "interleaved", "challengers": hs.len(), "order": order.iter().take(40).collect::<Vec<_>>(),
+            "ops": hs.iter().map(|h| h.len()).collect::<Vec<_>>()}));
+    }
+    vec![r]
+}
+
+fn case_interleaved<C: Cfg>(seed: u64, idx: usize) -> Vec<CaseResult> {
+    let mut rng = case_rng(seed, "c05-interleaved", idx as u64);
+    let recompose = rng.random_range(0..2u32) == 0;
+    let n_ch = if chance(&mut rng, 1, 4) { 3 } else { 2 };
+    let o = GenOpts { max_ops: *pick(&mut rng, &[4usize, 8, 16, 30]), max_perms: 12, pow: true, clear: true, bits: true, end_sample: true, const_pct: 40 };
+    let hs: Vec<Vec<HOp>> = (0..n_ch).map(|_| gen_history::<C>(&mut rng, &o)).collect();
+    if hs.iter().any(|h| h.is_empty()) {
+        return vec![CaseResult::inconclusive(format!("{}:interleaved:empty", C::NAME), "generator produced an empty history")];
+    }
+    // random merge; sometimes in runs (a few operations of one challenger, then of the other)
+    let mut left: Vec<usize> = hs.iter().map(|h| h.len()).collect();
+    let mut order = vec![];
+    let burst = chance(&mut rng, 1, 2);
+    while left.iter().any(|l| *l > 0) {
+        let c = loop {
+            let c = rng.random_range(0..n_ch);
+            if left[c] > 0 {
+                break c;
+            }
+        };
+        let k = if burst { rng.random_range(1..5usize).min(left[c]) } else { 1 };
+        for _ in 0..k {
+            order.push(c);
+        }
+        left[c] -= k;
+    }
+    check_interleaved::<C>(&hs, &order, recompose, idx < 4)
+}
+
 fn replay_one<C: Cfg>(d: &Value) -> Vec<CaseResult> {
+    if !d["interleaved"].is_null() {
+        let hs: Vec<Vec<HOp>> = serde_json::from_value(d["interleaved"]["histories"].clone()).expect("histories");
+        let order: Vec<usize> = serde_json::from_value(d["interleaved"]["order"].clone()).expect("order");
+        let mut rs = check_interleaved::<C>(&hs, &order, d["recompose_npo"].as_bool().unwrap_or(true), false);
+        for r in rs.iter_mut() {
+            r.key = format!("replay:{}", r.key);
+        }
+        return rs;
+    }
     let h: Vec<HOp> = serde_json::from_value(d["history"].clone()).expect("history");
     let recompose = d["recompose_npo"].as_bool().unwrap_or(true);
     let bad_op = d["bad_op"].as_u64().map(|x| x as usize);
@@ -1215,6 +1352,18 @@ fn main() {
         }
         rep.add_all(results);
         start += len;
+    }
+    // second stream: several challengers in one circuit, operations interleaved
+    if args.extra.get("n").is_none() || args.extra.contains_key("interleaved") {
+        let ni: usize = args.extra.get("interleaved").and_then(|s| s.parse().ok()).unwrap_or(args.tier.pick(3_000, 150_000));
+        let results = run_cases(ni, args.threads, |i| {
+            let name = match &only {
+                Some(c) => c.as_str(),
+                None => ALL_CONFIGS[i % ALL_CONFIGS.len()],
+            };
+            with_cfg!(name, case_interleaved, seed, i)
+        });
+        rep.add_all(results);
     }
     rep.finish(args.tier.pick(30_000, 1_500_000));
 }
